@@ -516,6 +516,27 @@ pub mod bitset {
             s
         }
     }
+    impl<K: SmallKey> Extend<K> for HashSet<K> {
+        fn extend<I: IntoIterator<Item = K>>(&mut self, it: I) {
+            for k in it {
+                self.insert(k);
+            }
+        }
+    }
+    impl<K: SmallKey> IntoIterator for HashSet<K> {
+        type Item = K;
+        type IntoIter = Iter<K>;
+        fn into_iter(self) -> Iter<K> {
+            self.iter()
+        }
+    }
+    impl<'a, K: SmallKey> IntoIterator for &'a HashSet<K> {
+        type Item = K;
+        type IntoIter = Iter<K>;
+        fn into_iter(self) -> Iter<K> {
+            self.iter()
+        }
+    }
 }
 
 
